@@ -2,8 +2,8 @@
 # usage: tools/seeds.sh "<seeds>" [props...]   - runs the quick checks for several seeds, output to /tmp/vseed
 SEEDS="$1"; shift
 PROPS="${@:-C01 C02 C03 C04 C05 C06 C07 C08 C09 C10 C11 C12 C13 C14 C15 C16 C17 C18}"
-mkdir -p /tmp/vseed
+mkdir -p /tmp/vseed; cp /verif/harness/target/release/vcheck /tmp/vseed/vcheck
 for s in $SEEDS; do for p in $PROPS; do
-  OUT=$(VERIF_SEED=$s VERIF_OUT=/tmp/vseed/s$s VERIF_DIR=/verif /verif/harness/target/release/vcheck $p 2>&1); RC=$?
+  OUT=$(VERIF_SEED=$s VERIF_OUT=/tmp/vseed/s$s VERIF_DIR=/verif /tmp/vseed/vcheck $p 2>&1); RC=$?
   echo "seed=$s $p rc=$RC $(echo "$OUT" | grep -E '^(violation|INCONCLUSIVE)' | head -1 | cut -c1-260)"
 done; done
